@@ -82,7 +82,7 @@ func (p *pct) next(step int, cur int, runnable []int) int {
 	return best
 }
 
-const maxSteps = 60000
+const maxSteps = 400000
 
 type sched struct {
 	tasks    []*task
